@@ -174,6 +174,70 @@ def irrelevantNominal (anyT : Ty) (etype : Ty) (types sups subs : List Ty) : Lis
   if beq etype anyT then []
   else (availTypes types (sups ++ subs)).filter fun t => !t.isTCon
 
+/-! ## `_find_candidate_type_args`: the candidate arguments of one position of a related instantiation
+
+The function asks `_find_types` (concrete_only, include_self) for the types related to the
+argument — in the requested direction for a covariant parameter, in the opposite direction for a
+contravariant one, not at all for an invariant one — and, when the argument is a use-site
+projection, for the types related to the projection's bound (`out`: same direction, also wrapped
+into `out` projections; `in`: opposite direction).  The answers of those nested searches are
+**inputs** of the model (recorded from the real calls, `selfAns` / `projAns`); what is modelled
+is *which* searches are made, in which direction, and how the candidate list is put together.
+`base` is the argument after `_replace_type_argument` (also recorded). -/
+
+/-- direction of the `_find_types` call for the argument itself; `none`: no call (invariant
+    parameter or `ignore_variance`), the candidate is the argument -/
+def candDirSelf (pvar : Nat) (getSub ignoreVar : Bool) : Option Bool :=
+  if pvar == 0 || ignoreVar then none
+  else if pvar == 1 then some getSub
+  else some (!getSub)
+
+/-- the `_find_types` call for the bound of a use-site projection: (bound, direction) -/
+def candDirProj (base : Ty) (getSub ignoreVar : Bool) : Option (Ty × Bool) :=
+  if ignoreVar then none
+  else match base with
+    | wild 1 (some bd) => some (bd, getSub)
+    | wild 2 (some bd) => some (bd, !getSub)
+    | _ => none
+
+/-- the `_find_types` calls of one invocation, in order: (etype, get_subtypes) -/
+def candidateCalls (pvar : Nat) (base : Ty) (getSub ignoreVar : Bool) : List (Ty × Bool) :=
+  (match candDirSelf pvar getSub ignoreVar with
+   | some d => [(base, d)]
+   | none => []) ++
+  (match candDirProj base getSub ignoreVar with
+   | some c => [c]
+   | none => [])
+
+/-- the candidate list, given the answers of the two calls -/
+def candidateArgs (pvar : Nat) (base : Ty) (getSub ignoreVar : Bool) (selfAns projAns : List Ty) :
+    List Ty :=
+  let tArgs := match candDirSelf pvar getSub ignoreVar with
+    | some _ => selfAns
+    | none => [base]
+  match candDirProj base getSub ignoreVar with
+  | none => tArgs
+  | some _ =>
+    match base with
+    | wild 1 _ => tArgs ++ (projAns ++ projAns.map fun t => wild 1 (some t))
+    | _ => tArgs ++ projAns
+
+/-! ## `get_irrelevant_parameterized_type` (the constructor has an entry in `type_args_map`) -/
+
+/-- the new argument list: position-wise the drawn replacement — for an invariant parameter the
+    type `random.choice` drew, else the answer of the nested `find_irrelevant_type` (`none`: the
+    old argument stays) -/
+def irrNewArgs : List Ty → List (Option Ty) → List Ty
+  | _ :: as, some c :: cs => c :: irrNewArgs as cs
+  | a :: as, none :: cs => a :: irrNewArgs as cs
+  | as, [] => as
+  | [], _ :: _ => []
+
+/-- `if new_type_args == type_args: return None; return etype.new(new_type_args)` -/
+def irrelevantParam (con : Ty) (typeArgs : List Ty) (choices : List (Option Ty)) : Option Ty :=
+  let new := irrNewArgs typeArgs choices
+  if beqL new typeArgs then none else some (tconNew con new)
+
 /-! ## result checkers (the property, for one answer) -/
 
 /-- the fuel the checkers give the decider.  A constant: the size-based fuel of `isSubDTop`
